@@ -32,7 +32,10 @@ class JWTAccessTokenClaims(JWTClaims):
         # or 'application/at+jwt' and reject tokens carrying any other value.
         # 'typ' is not a required claim, so we don't raise an error if it's missing.
         typ = self.header.get("typ")
-        if typ and typ.lower() not in ("at+jwt", "application/at+jwt"):
+        if typ and (
+            not isinstance(typ, str)
+            or typ.lower() not in ("at+jwt", "application/at+jwt")
+        ):
             raise InvalidClaimError("typ")
 
     def validate_client_id(self):
@@ -51,14 +54,20 @@ class JWTAccessTokenClaims(JWTClaims):
         if amr and not isinstance(self["amr"], list):
             raise InvalidClaimError("amr")
 
+    def _validate_space_separated_claim(self, claim_name):
+        value = self.get(claim_name)
+        if value and not isinstance(value, (str, list, tuple, set)):
+            raise InvalidClaimError(claim_name)
+        return self._validate_claim_value(claim_name)
+
     def validate_scope(self):
-        return self._validate_claim_value("scope")
+        return self._validate_space_separated_claim("scope")
 
     def validate_groups(self):
-        return self._validate_claim_value("groups")
+        return self._validate_space_separated_claim("groups")
 
     def validate_roles(self):
-        return self._validate_claim_value("roles")
+        return self._validate_space_separated_claim("roles")
 
     def validate_entitlements(self):
-        return self._validate_claim_value("entitlements")
+        return self._validate_space_separated_claim("entitlements")
